@@ -43,7 +43,7 @@ func verifMemset(n Node) idset.IDSet {
 // pool's CPUs split disjointly into isolated / reserved / sharable, memory
 // nodes of a child are a subset of its parent's and the root has them all.
 func VerifC16Tree() {
-	machine := []int{0, 1, 2, 3, 4}[verifChoice("machine", verifParam("machines", 5))]
+	machine := []int{0, 1, 2, 3, 4, 6}[verifChoice("machine", verifParam("machines", 6))]
 	sys, _, ncpu := verifMachine(machine)
 	allowed, reserved, isolated := verifSymbolicConstraints(ncpu, verifParam("constraints", 2))
 	w := verifNewPolicy(machine, allowed, reserved, isolated, verifDefaultConfig())
@@ -119,6 +119,21 @@ func verifC16CheckTree(p *policy, machine int, sys system.System, allowed, reser
 		}
 		verifAssert("C16.memoryless-node-has-no-pool", noPool)
 		verifAssert("C16.cpuless-pmem-follows-closest-cpu-bearing-dram", attachOK)
+	}
+	if machine == 6 {
+		// socket > die > NUMA node: every NUMA node pool hangs off its die's pool
+		verifCover("multi-die-machine")
+		nested, dies := true, 0
+		for _, n := range p.pools {
+			switch n.Kind() {
+			case DieNode:
+				dies++
+				nested = nested && len(n.Children()) == 2
+			case NumaNode:
+				nested = nested && !n.Parent().IsNil() && n.Parent().Kind() == DieNode
+			}
+		}
+		verifAssert("C16.numa-pools-nested-in-their-die", nested && dies == 2)
 	}
 	if machine == 3 {
 		// CPU-less PMEM node #2 belongs to exactly the pools that contain its
